@@ -6,9 +6,10 @@
    filesystem keeps (regular files, directories that stay behind, ENOTDIR /
    EISDIR / ENOTEMPTY refusals).  Executable definitions only.
 
-   The code is modelled as it is after the two repairs
-     "fix: PackRefs leaves symbolic references loose …" and
-     "fix: RemoveRef drops the peeled line of the packed reference it removes";
+   The code is modelled as it is after the repairs
+     "fix: PackRefs leaves symbolic references loose …",
+     "fix: RemoveRef drops the peeled line of the packed reference it removes" and
+     "fix: rewrite packed-refs before deleting the loose file in RemoveRef";
    the empty file left behind by a failed CheckAndSetReference is modelled
    faithfully (known finding, see Properties/C15.v). *)
 From Coq Require Import List Arith NArith ZArith Bool String.
@@ -355,26 +356,31 @@ Definition unlines (ls : list bytes) : bytes := flat_map (fun l => l ++ [10]) ls
 Definition remove_ref (s : store) (name : bytes) : store * res unit :=
   if negb (valid_reference_name name) then (s, Er EEscape)
   else
-    let f := fs s in
-    let after_loose : res fsys :=
-      match stat f name with
-      | SFile _ => Ok {| files := del_file name (files f); dirs := dirs f |}
-      | SDir => if dir_nonempty f name then Er EFs
-                else Ok {| files := files f; dirs := filter (fun d => negb (beqb name d)) (dirs f) |}
-      | SNoEnt => Ok f
-      | SNotDir => Er EFs
-      end in
-    match after_loose with
-    | Er e => (s, Er e)
-    | Ok f1 =>
+    (* the packed entry goes first ("fix: rewrite packed-refs before deleting the
+       loose file in RemoveRef"); a malformed packed-refs stops here, nothing changed *)
+    let after_packed : res (option bytes) :=
       match packed s with
-      | None => ({| fs := f1; packed := None |}, Ok tt)
+      | None => Ok None
       | Some b =>
         match drop_lines name (scan_lines b) false with
-        | Er e => ({| fs := f1; packed := Some b |}, Er e)
-        | Ok (kept, true) => ({| fs := f1; packed := Some (unlines kept) |}, Ok tt)
-        | Ok (_, false) => ({| fs := f1; packed := Some b |}, Ok tt)
+        | Er e => Er e
+        | Ok (kept, true) => Ok (Some (unlines kept))
+        | Ok (_, false) => Ok (Some b)
         end
+      end in
+    match after_packed with
+    | Er e => (s, Er e)
+    | Ok p1 =>
+      let f := fs s in
+      (* then Stat + Remove of the loose path; a refusal by the OS comes after
+         packed-refs has been rewritten *)
+      match stat f name with
+      | SFile _ => ({| fs := {| files := del_file name (files f); dirs := dirs f |}; packed := p1 |}, Ok tt)
+      | SDir => if dir_nonempty f name then ({| fs := f; packed := p1 |}, Er EFs)
+                else ({| fs := {| files := files f; dirs := filter (fun d => negb (beqb name d)) (dirs f) |};
+                         packed := p1 |}, Ok tt)
+      | SNoEnt => ({| fs := f; packed := p1 |}, Ok tt)
+      | SNotDir => ({| fs := f; packed := p1 |}, Er EFs)
       end
     end.
 
